@@ -162,3 +162,21 @@ Example C05_hostile_vhdx :
   196608 < total (context_info i) /\ total (context_info i) <= C05_bound F_vhdx.
 Proof. exact hostile_vhdx_attains. Qed.
 Print Assumptions C05_hostile_vhdx.
+
+(* ---------------------------------------------------------------- instances of the hypotheses used above *)
+(* the footer region EndCaptureRegion(1536) of the source satisfies the hypothesis of C05_capture_len_le_end *)
+Example C05_ex_footer_len : r_len footer_region <> 0.
+Proof. exact ex_footer_len. Qed.
+(* a fresh CaptureRegion satisfies the hypothesis of C05_capture_len_le_fixed *)
+Example C05_ex_fresh_region :
+  flen (r_data (region_of_spec 0 (mkRspec false 0 512 None))) <= r_len (region_of_spec 0 (mkRspec false 0 512 None)).
+Proof. exact ex_fresh_region. Qed.
+(* the hypotheses of C05_capture_len_le_source / C05_end_capture_len_le_source for a fresh 512-byte region and the footer *)
+Example C05_ex_source_hyps : (0 <= 512)%Z /\ (zlen [] <= 512)%Z /\ (0 < 1536)%Z.
+Proof. exact ex_source_hyps. Qed.
+(* a static format and a reachable state of it (C05_region_caps_static, C05_memory_bound_reachable) *)
+Example C05_ex_static : static_fmt F_qcow2 = true /\ reachable F_qcow2 (fst (eat (init F_qcow2) [81; 70; 73; 251])).
+Proof. exact ex_static. Qed.
+(* the states of the hostile examples are reachable *)
+Example C05_ex_reachable : forall f cs, reachable f (state_after f cs).
+Proof. exact state_after_reachable. Qed.
